@@ -6,7 +6,9 @@ import (
 	"bytes"
 	"hash/crc32"
 	"io"
+	"os"
 
+	"github.com/youzan/ZanRedisDB/pkg/fileutil"
 	"github.com/youzan/ZanRedisDB/raft/raftpb"
 	"github.com/youzan/ZanRedisDB/wal/walpb"
 	"vsym"
@@ -328,4 +330,99 @@ func Verif_C05_W5_ReadAllLoud() {
 		}
 	}
 	vsym.Reach("end")
+}
+
+// W6: bookkeeping and sync policy of Save / SaveSnapshot over a WAL whose encoder writes to memory
+// (symbolic run only: the tail file is an opaque *os.File whose Seek/Fdatasync are environment stubs).
+// - enti, which names the next segment (cut: walName(seq+1, enti+1)), follows etcd's rule: it is the index of
+//   the last saved entry, raised (never lowered) by a snapshot marker that is ahead of it;
+// - when Save returns and raft.MustSync says the data must be durable, every byte has been handed to the
+//   writer and Fdatasync was called (always, unless optimizedFsync allows skipping it for entry-only saves);
+// - what was handed to the writer decodes to exactly the saved records.
+func Verif_C05_W6_SaveBookkeeping() {
+	if !vsym.SymbolicOnly() {
+		vsym.Reach("end")
+		return
+	}
+	f := &c05File{}
+	w := &WAL{encoder: newEncoder(f, 0, 0), locks: []*fileutil.LockedFile{{File: &os.File{}}}}
+	w.optimizedFsync = vsym.Choose("optimizedFsync", 2) == 1
+	w.enti = vsym.U64("enti0")
+	vsym.Assume(w.enti >= 1<<14 && w.enti < 1<<20) // indexes stay in one varint length class
+	// one operation from an arbitrary bookkeeping state (inductive step); thorough: up to 2 operations in a row
+	w.state = raftpb.HardState{Term: vsym.U64("term0") % 64, Vote: vsym.U64("vote0") % 8, Commit: vsym.U64("commit0") % 64}
+	nops := 1
+	if vsym.Thorough() {
+		nops = 1 + vsym.Choose("nops", 2)
+	}
+	var wantTypes []int64
+	for i := 0; i < nops; i++ {
+		enti0 := w.enti
+		written0 := len(f.data)
+		syncs0 := vsym.FsyncCalls()
+		if vsym.Choose("op", 2) == 0 {
+			// Save(hard state, 0..1 entries)
+			st := raftpb.HardState{Term: vsym.U64("term") % 64, Vote: vsym.U64("vote") % 8, Commit: vsym.U64("commit") % 64}
+			prev := w.state
+			var ents []raftpb.Entry
+			if vsym.Choose("nents", 2) == 1 {
+				idx := vsym.U64("ent.index")
+				vsym.Assume(idx >= 1<<14 && idx < 1<<20)
+				ents = append(ents, raftpb.Entry{Index: idx, Term: vsym.U64("ent.term") % 64})
+			}
+			// keep the crc varint class fixed (see c05Write)
+			vsym.Assert(w.Save(st, ents) == nil, "Save succeeds")
+			empty := st.Term == 0 && st.Vote == 0 && st.Commit == 0
+			if len(ents) > 0 {
+				vsym.Assert(w.enti == ents[0].Index, "enti is the index of the last saved entry")
+				wantTypes = append(wantTypes, entryType)
+			} else {
+				vsym.Assert(w.enti == enti0, "a Save without entries leaves enti alone")
+			}
+			if !empty {
+				wantTypes = append(wantTypes, stateType)
+			}
+			if !(empty && len(ents) == 0) {
+				must := len(ents) != 0 || st.Vote != prev.Vote || st.Term != prev.Term
+				if must {
+					vsym.Assert(c05NothingBuffered(w, f), "MustSync: every byte was handed to the writer when Save returns")
+					needFsync := !w.optimizedFsync || (!empty && (st.Vote != prev.Vote || st.Term != prev.Term))
+					vsym.Assert(vsym.Implies(needFsync, vsym.FsyncCalls() > syncs0), "MustSync: Fdatasync was called (unless optimizedFsync and only entries changed)")
+				}
+			}
+		} else {
+			si := vsym.U64("snap.index")
+			vsym.Assume(si >= 1<<14 && si < 1<<20)
+			snap := walpb.Snapshot{Index: si, Term: vsym.U64("snap.term") % 64}
+			vsym.Assert(w.SaveSnapshot(snap) == nil, "SaveSnapshot succeeds")
+			want := enti0
+			if snap.Index > want {
+				want = snap.Index
+			}
+			vsym.Assert(w.enti == want, "a snapshot marker raises enti when it is ahead of the last entry and never lowers it")
+			vsym.Assert(c05NothingBuffered(w, f), "SaveSnapshot flushes")
+			vsym.Assert(len(f.data) > written0, "the snapshot marker reached the writer")
+			vsym.Assert(w.optimizedFsync || vsym.FsyncCalls() > syncs0, "SaveSnapshot syncs unless optimizedFsync")
+			wantTypes = append(wantTypes, snapshotType)
+		}
+	}
+	vsym.Assert(w.encoder.flush() == nil, "flush")
+	d := newDecoder(bytes.NewReader(f.data))
+	for _, t := range wantTypes {
+		var rec walpb.Record
+		vsym.Assert(d.decode(&rec) == nil && rec.Type == t, "the saved records come back in order with their types")
+	}
+	var rec walpb.Record
+	vsym.Assert(d.decode(&rec) == io.EOF, "nothing else was written")
+	vsym.Reach("end")
+}
+
+
+// c05NothingBuffered: an extra flush hands nothing more to the writer, i.e. the page buffer was empty.
+func c05NothingBuffered(w *WAL, f *c05File) bool {
+	n := len(f.data)
+	if w.encoder.flush() != nil {
+		return false
+	}
+	return len(f.data) == n
 }
